@@ -93,6 +93,18 @@ pub fn gen(tier: &str, r: &mut Rng) -> Vec<String> {
         "data_x loop_ _atom_site.group_PDB ATOM", "data_x loop_ _atom_site.group_PDB _atom_site.id ATOM 1"] {
         for _ in 0..3 { push(&mut out, r, f.as_bytes().to_vec(), "structure"); }
     }
+    // every unit-cell item x odd values (range ends of the angles, negatives, non-numbers, overflow), alone and
+    // inside an otherwise complete cell
+    let cell_tags = ["length_a", "length_b", "length_c", "angle_alpha", "angle_beta", "angle_gamma"];
+    for (k, tag) in cell_tags.iter().enumerate() {
+        for v in ["400", "360", "360.0", "359.999", "-1", "-90.0", "0", "0.0", "-0.0", "1e400", "-1e400", "1e-400", "abc", "?", ".", "'90'", "90(5)", "1e3", "nan", "inf"] {
+            push(&mut out, r, format!("data_x _cell.{} {}", tag, v).into_bytes(), "unit-cell");
+            let mut s = String::from("data_x\n");
+            for (j, t) in cell_tags.iter().enumerate() { s.push_str(&format!("_cell.{} {}\n", t, if j == k { v } else if j < 3 { "10.5" } else { "90" })); }
+            s.push_str("_symmetry.space_group_name_H-M 'P 1'\n");
+            push(&mut out, r, s.into_bytes(), "unit-cell");
+        }
+    }
     // multi-fault mutations of generated documents
     let n = budget(tier, 1200, 60_000);
     for _ in 0..n {
